@@ -615,32 +615,46 @@ fn clone_sequences(rep: &mut Report) {
                     let inp = || json!({"type": "PasswordAlgorithms", "route": route, "adds_before_clone": k, "mutated": which, "adds_after_clone": j});
                     let cls = format!("{}-after-clone", if j == 0 { "read" } else { "add" });
                     np("PasswordAlgorithms::add", &cls, &inp, rep, || {
-                        let mut model: Vec<u16> = vec![];
+                        // whether `add` keeps a second copy of an entry that is already there is not stated anywhere: after
+                        // every add the list is the old one plus the entry, or (entry already present) the old one; the copy
+                        // that is not touched holds exactly what it held
+                        let mut ok = true;
+                        let step = |t: &mut PasswordAlgorithms, a: &PasswordAlgorithm, ok: &mut bool| {
+                            let before = ids(t);
+                            t.add(a.clone());
+                            let after = ids(t);
+                            let x = u16::from(a.algorithm());
+                            let mut appended = before.clone();
+                            appended.push(x);
+                            if !(after == appended || (before.contains(&x) && after == before)) {
+                                *ok = false;
+                            }
+                        };
                         let mut p = if route == "default" {
                             PasswordAlgorithms::default()
                         } else {
                             let v: Vec<PasswordAlgorithm> = algs.iter().take(k).cloned().collect();
-                            model = v.iter().map(|a| u16::from(a.algorithm())).collect();
-                            PasswordAlgorithms::from(v)
+                            let want: Vec<u16> = v.iter().map(|a| u16::from(a.algorithm())).collect();
+                            let p = PasswordAlgorithms::from(v);
+                            ok &= ids(&p) == want;
+                            p
                         };
                         if route == "default" {
                             for a in algs.iter().take(k) {
-                                p.add(a.clone());
-                                model.push(u16::from(a.algorithm()));
+                                step(&mut p, a, &mut ok);
                             }
                         }
                         let mut c = p.clone();
-                        let mut model_c = model.clone();
+                        let frozen = ids(&p);
                         for a in algs.iter().take(j) {
                             if which == "original" {
-                                p.add(a.clone());
-                                model.push(u16::from(a.algorithm()));
+                                step(&mut p, a, &mut ok);
                             } else {
-                                c.add(a.clone());
-                                model_c.push(u16::from(a.algorithm()));
+                                step(&mut c, a, &mut ok);
                             }
                         }
-                        (ids(&p) == model, ids(&c) == model_c, p.password_algorithms().len(), c.clone().into_iter().count())
+                        let other_unchanged = if which == "original" { ids(&c) == frozen } else { ids(&p) == frozen };
+                        (ok, other_unchanged, p.password_algorithms().len(), c.clone().into_iter().count())
                     })
                     .map(|(a, b, _, _)| {
                         if !(a && b) {
@@ -659,26 +673,35 @@ fn clone_sequences(rep: &mut Report) {
             for j in 0..=2usize {
                 let inp = || json!({"type": "UnknownAttributes", "adds_before_clone": k, "mutated": which, "adds_after_clone": j});
                 np("UnknownAttributes::add", "after-clone", &inp, rep, || {
+                    // (as above: appended, or kept once when already present - either is accepted)
+                    let mut ok = true;
+                    let step = |t: &mut UnknownAttributes, x: u16, ok: &mut bool| {
+                        let before = t.attributes().to_vec();
+                        t.add(x);
+                        let after = t.attributes().to_vec();
+                        let mut appended = before.clone();
+                        appended.push(x);
+                        if !(after == appended || (before.contains(&x) && after == before)) {
+                            *ok = false;
+                        }
+                    };
                     let mut u = UnknownAttributes::default();
-                    let mut model: Vec<u16> = vec![];
                     for x in 0..k as u16 {
-                        u.add(x);
-                        model.push(x);
+                        step(&mut u, x, &mut ok);
                     }
                     let mut c = u.clone();
-                    let mut model_c = model.clone();
+                    let frozen = u.attributes().to_vec();
                     for x in 0..j as u16 {
                         let v = 100 + x;
                         if which == "original" {
-                            u.add(v);
-                            u.add(v); // duplicates are ignored
-                            model.push(v);
+                            step(&mut u, v, &mut ok);
+                            step(&mut u, v, &mut ok); // the same code again
                         } else {
-                            c.add(v);
-                            model_c.push(v);
+                            step(&mut c, v, &mut ok);
                         }
                     }
-                    (u.attributes() == model.as_slice(), c.attributes() == model_c.as_slice(), u.iter().count(), u.len())
+                    let other_unchanged = if which == "original" { c.attributes() == frozen.as_slice() } else { u.attributes() == frozen.as_slice() };
+                    (ok, other_unchanged, u.iter().count(), u.len())
                 })
                 .map(|(a, b, _, _)| {
                     if !(a && b) {
